@@ -18,6 +18,7 @@ package main
 //        d<e> / f<e>  the dial started by e returns a connection / an error
 //        r<e> the server answers e        c<e> e's context is cancelled
 //        t    the idle time-out passes (only while no caller is blocked)     C  Close
+//        B<k> (pipe) answered exchanges use up the wire ids of the live connection until k of the 65536 are left
 // out  : res=<e>:<ok|err|ctx|pend>,.. cl=<Close calls that returned|hang|panic> open=<connections/sockets still open>
 //        atc=<exchanges still blocked after the first Close had settled> dials=<DialContext calls|->
 
@@ -118,6 +119,7 @@ type c18fconn struct {
 	closed bool
 	rdl    time.Time
 	wbuf   []byte
+	used   int // queries written = wire ids taken (pipelined transport)
 }
 
 func (c *c18fconn) signal() {
@@ -185,9 +187,10 @@ func (c *c18fconn) Write(b []byte) (int, error) {
 	} else {
 		msgs = append(msgs, append([]byte(nil), b...))
 	}
+	c.used += len(msgs)
 	c.mu.Unlock()
 	for _, m := range msgs {
-		c.h.gotQuery(c18Nonce(m), m, func(reply []byte) bool {
+		c.h.gotQuery(c, c18Nonce(m), m, func(reply []byte) bool {
 			c.mu.Lock()
 			defer c.mu.Unlock()
 			if c.closed {
@@ -316,7 +319,7 @@ func (s *c18qstream) Write(b []byte) (int, error) {
 	}
 	s.mu.Unlock()
 	if msg != nil {
-		s.c.h.gotQuery(c18Nonce(msg), msg, func(reply []byte) bool {
+		s.c.h.gotQuery(nil, c18Nonce(msg), msg, func(reply []byte) bool {
 			s.mu.Lock()
 			defer s.mu.Unlock()
 			if s.dead {
@@ -384,6 +387,7 @@ type c18ex struct {
 	answered  bool
 	reply     func([]byte) bool
 	query     []byte
+	conn      *c18fconn
 }
 
 type c18xchg interface {
@@ -405,13 +409,90 @@ type c18man struct {
 	curStarter int
 	curStub    bool
 	base       int // nonce base
+	autoAnswer bool
 }
 
-func (h *c18man) gotQuery(nonce int, msg []byte, reply func([]byte) bool) {
+func (h *c18man) gotQuery(c *c18fconn, nonce int, msg []byte, reply func([]byte) bool) {
 	h.mu.Lock()
+	if h.autoAnswer {
+		h.mu.Unlock()
+		reply(c18Reply(msg))
+		return
+	}
 	defer h.mu.Unlock()
 	if x := h.exs[nonce-h.base]; x != nil && nonce >= h.base {
-		x.querySeen, x.reply, x.query, x.answered = true, reply, msg, false
+		x.querySeen, x.reply, x.query, x.answered, x.conn = true, reply, msg, false, c
+	}
+}
+
+const c18IdSpace = 65536
+
+func (c *c18fconn) usedIds() int { c.mu.Lock(); defer c.mu.Unlock(); return c.used }
+
+// burn: answered exchanges take wire ids of the live pipelined connection until k are left (only while no
+// caller is blocked and no dial is pending; nothing happens if the connection has fewer than k left).
+func (h *c18man) burn(k int) {
+	if h.kind != "pipe" || len(h.blockedIds(false)) > 0 {
+		return
+	}
+	h.mu.Lock()
+	ngates := len(h.gates)
+	var live *c18fconn
+	for _, c := range h.conns {
+		if fc, ok := c.(*c18fconn); ok && !fc.isClosed() && fc.usedIds() < c18IdSpace {
+			live = fc
+			break
+		}
+	}
+	h.mu.Unlock()
+	if ngates > 0 || live == nil || h.isClosed() {
+		return
+	}
+	n := c18IdSpace - k - live.usedIds()
+	if n < 0 {
+		return
+	}
+	h.mu.Lock()
+	h.autoAnswer = true
+	h.mu.Unlock()
+	for i := 0; i < n; i++ {
+		ctx, cancel := context.WithTimeout(context.Background(), c18CallMax)
+		_, err := h.t.ExchangeContext(ctx, c18Query(h.base+10000+i, 7))
+		cancel()
+		if err != nil {
+			fmt.Fprintf(os.Stderr, "c18: burn exchange %d failed: %v\n", i, err)
+			break
+		}
+	}
+	h.mu.Lock()
+	h.autoAnswer = false
+	h.mu.Unlock()
+	h.eolSettle()
+}
+
+// a pipelined connection without wire ids closes itself when its last query is done (asynchronously)
+func (h *c18man) eolSettle() {
+	if h.kind != "pipe" {
+		return
+	}
+	h.mu.Lock()
+	var eol []*c18fconn
+	for _, c := range h.conns {
+		if fc, ok := c.(*c18fconn); ok && fc.usedIds() >= c18IdSpace {
+			busy := false
+			for _, x := range h.exs {
+				if !x.done && x.querySeen && !x.answered && x.conn == fc {
+					busy = true
+				}
+			}
+			if !busy {
+				eol = append(eol, fc)
+			}
+		}
+	}
+	h.mu.Unlock()
+	for _, fc := range eol {
+		c18Wait(fc.isClosed)
 	}
 }
 
@@ -792,6 +873,8 @@ func c18RunManual(m map[string]string, ops []string, withTimer bool) (out string
 			h.cancelEx(n)
 		case 't':
 			h.timer()
+		case 'B':
+			h.burn(n)
 		case 'C':
 			r := c18Call(c18CallMax, func() { h.t.Close() })
 			if r != "ok" {
@@ -811,6 +894,7 @@ func c18RunManual(m map[string]string, ops []string, withTimer bool) (out string
 		}
 		last = time.Now()
 	}
+	h.eolSettle()
 	closedAtEnd := h.isClosed()
 	if closedAtEnd {
 		// epilogue: every dial that is still pending completes with a connection (late dial)
@@ -874,6 +958,9 @@ func c18CloseRun(c string) string {
 	if m["auto"] == "1" {
 		return c18Retry(func() string { return c18RunAuto(m, ops) })
 	}
+	if m["stall"] == "1" {
+		return c18Retry(func() string { return c18RunStall(m, ops) })
+	}
 	withTimer := false
 	for _, op := range ops {
 		if op == "t" {
@@ -916,6 +1003,30 @@ func c18CloseGen(r *rand.Rand, thorough bool, emit func(c, cat string)) {
 			emit(c+" ops="+ops, k+"/fixed")
 		}
 	}
+	// wire-id exhaustion of a pipelined connection (65536 ids): the connection that ran out of ids still has
+	// queries in flight, the pool is used once more (cancel / another exchange), then Close
+	burn := []string{
+		"s1,d1,r1,B2,s2,s3,s4,c2,C", "s1,d1,r1,B3,s2,s3,s4,s5,C,d5", "s1,d1,r1,B0,s2,d2,r2,C",
+		"s1,d1,r1,B1,s2,r2", "s1,d1,r1,B2,s2,s3,c2,s4,d4,r4,C,r3", "s1,d1,B3,r1,B1,s2,s3,d3,c2,C,C",
+		"s1,d1,r1,B2,s2,s3,r3,s4,d4,C", "s1,d1,r1,B1,s2,c2,s3,d3,r3,t,C",
+	}
+	for i, ops := range burn {
+		if !thorough && i > 2 {
+			break
+		}
+		c := "k=pipe auto=0"
+		if i%2 == 0 {
+			c += " fr=udp"
+		}
+		emit(c+" ops="+ops, "pipe/id-exhaustion")
+		if thorough {
+			c = "k=pipe auto=0"
+			if i%2 == 1 {
+				c += " fr=udp"
+			}
+			emit(c+" ops="+ops, "pipe/id-exhaustion")
+		}
+	}
 	n := 60
 	if thorough {
 		n = 700
@@ -956,6 +1067,8 @@ func c18CloseGen(r *rand.Rand, thorough bool, emit func(c, cat string)) {
 				ops = append(ops, "r"+strconv.Itoa(e))
 			case x < 14:
 				ops = append(ops, "c"+strconv.Itoa(e))
+			case x < 15 && thorough && k == "pipe" && i%9 == 0:
+				ops = append(ops, "B"+strconv.Itoa(r.Intn(4)))
 			case x < 15:
 				if timers == 0 && ((thorough && i%4 == 0) || i%6 == 0) {
 					ops = append(ops, "t")
@@ -978,4 +1091,5 @@ func c18CloseGen(r *rand.Rand, thorough bool, emit func(c, cat string)) {
 		emit(c+" ops="+strings.Join(ops, ","), cat)
 	}
 	c18AutoGen(r, thorough, emit)
+	c18StallGen(r, thorough, emit)
 }
